@@ -7,7 +7,51 @@ own list (`l[i]`, `l[a:b:s]`, `[l[i] for i in idx]`, mask filter); the extracted
 (Spec/C20.v list_getitem, op 2003) must agree with that oracle and the extracted model of the
 indexing code (Model/C20.v, op 2001 = with repo_fixes/C20.diff, op 2002 = as found) with the
 implementation.  impl != list oracle is a violation with the input as replay; impl == oracle but
-model != impl, or Coq spec != CPython list, is a broken correspondence."""
+model != impl, or Coq spec != CPython list, is a broken correspondence.
+
+Coverage audit (item of the property text -> stream that drives it on the IMPLEMENTATION; P = property predicate
+checked there against the CPython list oracle, M = also compared with the Coq model):
+  backings: SignatureArray fresh / contiguous view, SignatureList, HDF5Signatures (dump+load)  exhaustive-*, random-getitem  P M
+  other constructions of the same classes: dtype inferred, tuple input, copy / astype of a SignatureArray,
+    SignatureArray(SignatureList), SignatureList(SignatureArray | generator), from_arrays with int32/uint32/int64/
+    uint64 bounds, view of a view, results of int-array / mask / reversed-slice indexing, list built by inserts,
+    AnnotatedSignatures wrapper (delegating __getitem__/__eq__), files written from a SignatureList / annotated
+    collection (str, int ids, metadata), gzip / lzf (chunked) datasets, HDF5Signatures.create in a sub-group,
+    load_signatures(mode=, driver='core'), load_signatures_hdf5                                  xindex, session, eqx (xcoll-*)  P
+  dtypes: uint16/32/64 (random-getitem P M; exhaustive streams use uint16 = KmerSpec.index_dtype only);
+    uint8, int16/32/64, big-endian >u2/>u4/>u8, values up to the dtype maximum (>2^32, >2^53, 2^64-1), long
+    signatures (17..300 elements), KmerSpec None / default 11-ATGAC / prefix as lower-case bytes  xcoll-*            P
+  int, negative int, NumPy scalar ints                                                         exhaustive-index-lists, random  P M
+    every NumPy integer scalar type incl. intp/uintp/intc/longlong; bool and IntEnum (lenient)  xindex-scalar-kinds            P
+  slice, any step                                                                              exhaustive-slices, random      P M
+    NumPy scalars (and bools, lenient) as start/stop/step                                      xindex-numpy-slice-fields      P
+  integer array: list, tuple, ndarray of the 8 native dtypes (contiguous)                      exhaustive-index-lists, narrow-dtype  P M
+    non-native byte order, intp/uintp, strided / negative-stride / column / broadcast (stride 0) / read-only /
+    unaligned arrays                                                                           xindex-array-layouts-byteorders  P
+    lists / tuples of NumPy scalars (mixed types), repeated indices; lenient: lists mixing bool and int, range,
+    array.array, bytearray, memoryview                                                         xindex-int-containers          P
+  boolean mask: ndarray, list                                                                  exhaustive-masks, random       P M
+    strided / reversed / column / broadcast / read-only masks, list of np.bool_, tuple (lenient)  xindex-mask-containers-layouts  P
+  out-of-range / ill-typed -> index or type error                                              exhaustive-*, malformed        P M  (+ every x-stream, classes IndexError/TypeError merged)
+  sub-collections keep type, k-mer parameters, integer type (also of each item, len == items)  getitem (collection only)  P M ; xindex, session (also items)  P
+  caller's index array unmodified: ndarray / list snapshot                                     getitem                        P
+    also the buffer a view looks at, read-only arrays, the SAME index object used twice and across collections,
+    sub-collections and mutations                                                              xindex (2 calls), session (pool of index objects)  P
+  immutable sequence: the collection (and every sub-collection taken earlier) still reads the same after any number
+    of indexing operations; len / iter / reversed / item-by-item agree; nested indexing of sub-collections
+                                                                                               xindex (re-read), session      P
+  list mutations set/del/insert/pop/append (+extend, +=, reverse, clear, slice set/del)        histories-primitive P M, histories-extended P
+    NumPy-scalar positions; mutations interleaved with indexing; sub-collections are independent of later mutations
+    of the parent and vice versa (a list slice is a copy)                                      session-list-backed            P
+  equality iff parameters and all signatures equal: 4 backings, uint16/32/64, 3 parameter sets  eq                             P M
+    all constructions above incl. wrapper / files with other ids+metadata, other dtypes, same parameters spelled
+    differently, None parameters, one value changed by 1 / 2^16 / 2^32 / 2^63 near the top of the range, 300
+    signatures, the same object, sub-collections (session 'eq'), sigarray_eq (gambit.sigs re-export; plain
+    lists / tuples on either side)                                                             eqx, session                   P
+Not driven: objects that only define __index__ as positions (the code refuses them with TypeError where a list accepts
+them: an "ill-typed index" by the code's own documentation), == against non-collections (NotImplemented -> False),
+indexing a closed file, ndarray subclasses (masked arrays, matrices), Sequence mix-ins index/count/__contains__
+(they compare arrays with ==; not named by the property), np.copyto narrowing when signatures do not fit the dtype."""
 import itertools
 import os
 
@@ -17,7 +61,14 @@ RULE = ('getitem: (backing, signatures, index expression) -> signature / sub-col
         'and the expression is not a plain in-range non-negative int.  mutate: history of list mutations on a '
         'SignatureList vs a plain list (state and outcome after every step); non-trivial: >= 3 steps of which one '
         'fails or uses a negative index.  eq: two collections (any backings) -> ==, !=; non-trivial: same length, '
-        'differing in at most one element / parameter / dtype.')
+        'differing in at most one element / parameter / dtype.  xindex (audit streams, list oracle only): (construction, dtype, '
+        'parameters, signatures, index object given by container / scalar kind / memory layout) -> the same observables, the '
+        'collection re-read afterwards, the index object and the buffer it views afterwards, a second call with the same '
+        'object; non-trivial as getitem.  session: one collection, a pool of index objects reused by reference, 2..14 steps '
+        '(index the collection or a sub-collection taken earlier, mutate a list-backed one, ==, len/iter/reversed), every '
+        'object re-read after every step; non-trivial: >= 3 steps with a mutation or a nested indexing.  eqx: pairs of '
+        'collections of any construction / dtype / parameters, b derived from a by one minimal change; ==, !=, both orders, '
+        'sigarray_eq on collections and plain sequences; non-trivial: same length >= 1.')
 TRUSTED = ['CPython list indexing/slicing/mutation is the oracle ("what a plain list would do")',
            'NumPy / h5py array reads (integer lookup, basic slice, np.arange, np.flatnonzero, np.cumsum, np.copyto) '
            'modelled as list functions in Model/C20.v',
@@ -27,8 +78,13 @@ ASSUMPTIONS = ['fewer than 2^63 signatures; slice steps fit Py_ssize_t (theorem 
                'C20_index_unmodified is explored (caller arrays compared before/after), not proved: the Coq model is '
                'pure and has no caller-owned mutable array',
                'slice assignment / deletion, extend, reverse, clear, += on SignatureList are compared with a plain list '
-               'only (not in the Coq model); bool scalars as indices are not exercised']
-CORRESPONDENCES = ['getitem', 'mutate', 'eq']
+               'only (not in the Coq model)',
+               'the audit streams xindex / session / eqx are outside the modelled domain (other dtypes, byte orders, constructors, '
+               'wrappers, index containers, call sequences): judged by the property predicate and the CPython list oracle alone',
+               'index objects the property does not name (bool / IntEnum scalars, range, array.array, bytearray, memoryview, tuple '
+               'masks, lists mixing bool and int or 64-bit unsigned and signed NumPy scalars) may be refused with an index/type '
+               'error or select what a list would; IndexError and TypeError are one class in the audit streams']
+CORRESPONDENCES = ['getitem', 'mutate', 'eq', 'xindex', 'session', 'eqx']
 SHRINK = False
 
 ERR = {1: 'IndexError', 2: 'TypeError', 3: 'ValueError', 4: 'NumpyError', 5: 'OutOfFuel'}
@@ -434,8 +490,780 @@ def k_eq(ctx, cases):
 			ctx.broke('correspondence eq (Model/C20.v coll_eq vs __eq__)', f'case {c}: model {m}, implementation {got}')
 
 
-KINDS = {'getitem': k_getitem, 'mutate': k_mutate, 'eq': k_eq}
+# ======================================================================================================
+# Coverage-audit streams: xindex / session / eqx.  They drive collection constructions, index containers
+# and call sequences that the modelled streams above do not produce.  Judged by the property predicate
+# and the CPython list oracle ONLY (no Coq model comparison: these inputs are outside the modelled
+# domain of Model/C20.v -- other dtypes / byte orders / constructors / wrappers / call sequences).
+# ======================================================================================================
+
+XDT_MAX = {'uint8': 2 ** 8 - 1, 'uint16': 2 ** 16 - 1, 'uint32': 2 ** 32 - 1, 'uint64': 2 ** 64 - 1, 'int16': 2 ** 15 - 1,
+           'int32': 2 ** 31 - 1, 'int64': 2 ** 63 - 1, '>u2': 2 ** 16 - 1, '>u4': 2 ** 32 - 1, '>u8': 2 ** 64 - 1}
+ARRAY_HOWS = ['array', 'array-infer', 'array-tuple', 'array-copy', 'array-astype', 'array-from-list', 'from-arrays', 'view',
+              'view2', 'sub-ints', 'sub-mask', 'sub-rev']
+LIST_HOWS = ['list', 'list-gen', 'list-tuple', 'list-from-array', 'list-infer', 'list-sub', 'list-built', 'list-ints']
+IDX_DTS = ['int8', 'int16', 'int32', 'int64', 'uint8', 'uint16', 'uint32', 'uint64', 'intp', 'uintp',
+           '>i2', '>i4', '>i8', '>u2', '>u4', '>u8']
+IDX_LAYOUTS = ['contig', 'strided', 'neg', 'ro', 'unaligned', 'col', 'bcast']
+NP_SCALARS = ['int8', 'int16', 'int32', 'int64', 'uint8', 'uint16', 'uint32', 'uint64', 'intp', 'uintp', 'intc', 'short',
+              'ubyte', 'longlong', 'ulonglong', 'int_']
+JUNK = [[1], [2, 3]]
+
+
+def _xks(k):
+	"""k-mer parameters of the audit streams: 0..2 as _kspec, 3 = the package default, 4 = the same parameters as 0
+	spelled differently (lower-case bytes prefix), None = no parameters"""
+	from gambit.kmers import KmerSpec
+	if k is None:
+		return None
+	if k == 3:
+		return KmerSpec(11, 'ATGAC')
+	if k == 4:
+		return KmerSpec(6, b'at')
+	return _kspec(k)
+
+
+def _kid(k):
+	return 0 if k == 4 else k
+
+
+def _idx_range(dt):
+	import numpy as np
+	ii = np.iinfo(np.dtype(dt))
+	return int(ii.min), int(ii.max)
+
+
+def _xbuild(d):
+	"""d = dict(how, k, dt, sigs, opts) -> dict(obj, base, ks, dt).  Every `how` yields a collection whose content is
+	exactly d['sigs'] (junk signatures only pad parents that are sliced away again)."""
+	import json
+	import numpy as np
+	import h5py
+	from gambit.sigs.base import SignatureArray, SignatureList, AnnotatedSignatures, SignaturesMeta, dump_signatures, \
+		load_signatures
+	from gambit.sigs.hdf5 import HDF5Signatures, load_signatures_hdf5
+	how, k, sigs, o = d['how'], d.get('k', 0), d['sigs'], d.get('opts') or {}
+	dt = np.dtype(d.get('dt', 'uint16'))
+	ks = _xks(k)
+	n = len(sigs)
+	A = lambda ss, t=dt: [np.array(s, dtype=t) for s in ss]
+	arrs = A(sigs)
+	ann = how.startswith('ann:')
+	if ann:
+		how = how[4:]
+	base = 'list' if how.startswith('list') else 'array'
+	if how == 'array':
+		obj = SignatureArray(arrs, ks, dtype=dt)
+	elif how == 'array-infer':
+		obj = SignatureArray(arrs, ks) if n else SignatureArray(arrs, ks, dtype=dt)
+	elif how == 'array-tuple':
+		obj = SignatureArray(tuple(arrs), ks, dtype=dt)
+	elif how == 'array-copy':
+		obj = SignatureArray(SignatureArray(arrs, ks, dtype=dt))
+	elif how == 'array-astype':
+		wide = np.dtype(np.uint64 if dt.kind == 'u' else np.int64)
+		obj = SignatureArray(SignatureArray(A(sigs, wide), ks, dtype=wide), dtype=dt)
+	elif how == 'array-from-list':
+		obj = SignatureArray(SignatureList(arrs, ks, dtype=dt), dtype=(None if n else dt))
+	elif how == 'from-arrays':
+		bounds = [0]
+		for s in sigs:
+			bounds.append(bounds[-1] + len(s))
+		obj = SignatureArray.from_arrays(np.array([x for s in sigs for x in s], dtype=dt),
+		                                 np.array(bounds, dtype=o.get('bdt', 'intp')), ks)
+	elif how == 'view':
+		obj = SignatureArray(A(JUNK[:1]) + arrs + A(JUNK[1:]), ks, dtype=dt)[1:-1]
+	elif how == 'view2':
+		obj = SignatureArray(A(JUNK) + arrs + A(JUNK), ks, dtype=dt)[1:-1][1:-1]
+	elif how == 'sub-ints':
+		obj = SignatureArray(A(JUNK[:1]) + arrs[::-1], ks, dtype=dt)[list(range(n, 0, -1))]
+	elif how == 'sub-mask':
+		inter = []
+		for a in arrs:
+			inter += [a] + A(JUNK[1:])
+		obj = SignatureArray(inter, ks, dtype=dt)[np.array([1, 0] * n, dtype=bool)]
+	elif how == 'sub-rev':
+		obj = SignatureArray(arrs[::-1], ks, dtype=dt)[::-1]
+	elif how == 'list':
+		obj = SignatureList(arrs, ks, dtype=dt)
+	elif how == 'list-gen':
+		obj = SignatureList((a for a in arrs), ks, dtype=dt)
+	elif how == 'list-tuple':
+		obj = SignatureList(tuple(arrs), ks, dtype=dt)
+	elif how == 'list-from-array':
+		obj = SignatureList(SignatureArray(arrs, ks, dtype=dt))
+	elif how == 'list-infer':
+		obj = SignatureList(arrs, ks) if n else SignatureList(arrs, ks, dtype=dt)
+	elif how == 'list-sub':
+		obj = SignatureList(A(JUNK[:1]) + arrs + A(JUNK[1:]), ks, dtype=dt)[1:-1]
+	elif how == 'list-built':
+		obj = SignatureList([], ks, dtype=dt)
+		for a in arrs[::-1]:
+			obj.insert(0, a)
+	elif how == 'list-ints':
+		obj = SignatureList(A(JUNK[:1]) + arrs[::-1], ks, dtype=dt)[np.arange(n, 0, -1)]
+	elif how == 'hdf5':
+		key = 'x:' + json.dumps(d, sort_keys=True)
+		obj = _state['h5'].get(key)
+		if obj is None or not obj:
+			if len(_state['h5']) > 200:
+				for old_key in list(_state['h5'])[:100]:
+					try:
+						_state['h5'].pop(old_key).close()
+					except Exception:
+						pass
+			_state['nfile'] += 1
+			path = os.path.join(_state['dir'], f'x{_state["nfile"]}.gs')
+			src = SignatureList(arrs, ks, dtype=dt) if o.get('src') == 'list' else SignatureArray(arrs, ks, dtype=dt)
+			ids = o.get('ids')
+			if ids:
+				idl = {'str': [f'g{i}' for i in range(n)], 'int': [100 + i for i in range(n)],
+				       'strB': [f'other/{n - i}' for i in range(n)]}[ids]
+				meta = SignaturesMeta(id=f'set-{ids}', name=ids, version='1.0', id_attr='key', description='d',
+				                      extra={'n': n}) if o.get('meta') else None
+				ida = np.asarray(idl) if n else (np.zeros(0, dtype=int) if ids == 'int' else np.array([], dtype=object))
+				src = AnnotatedSignatures(src, ida, meta)
+			kw = {} if not o.get('comp') else dict(compression=o['comp'])
+			if o.get('group'):
+				with h5py.File(path, 'w') as f:
+					HDF5Signatures.create(f.create_group('grp/x'), src, **kw)
+				obj = HDF5Signatures(h5py.File(path, 'r')['grp/x'])
+			else:
+				dump_signatures(path, src, 'hdf5', **kw)
+				opn = o.get('open', 'default')
+				if opn == 'fn':
+					obj = load_signatures_hdf5(path)
+				else:
+					obj = load_signatures(path, **{'default': {}, 'mode-r': dict(mode='r'),
+					                               'core': dict(driver='core', backing_store=False)}[opn])
+			_state['h5'][key] = obj
+	else:
+		raise ValueError(how)
+	if ann:
+		aids = o.get('aids')
+		obj = AnnotatedSignatures(obj, None if not aids else [f'{aids}{i}' for i in range(n)],
+		                          SignaturesMeta(id=aids) if aids else None)
+	return dict(obj=obj, base=base, ks=ks, dt=dt, ann=ann)
+
+
+def _nd(vals, dt, lay):
+	"""numpy array holding vals with the given dtype and memory layout -> (array, [objects to snapshot])"""
+	import numpy as np
+	dt = np.dtype(dt)
+	a = np.array(vals, dtype=dt)
+	junk = True if dt.kind == 'b' else 1
+	if lay == 'strided':
+		basearr = np.full(2 * len(a) + 1, junk, dtype=dt)
+		basearr[1::2] = a
+		return basearr[1::2], [basearr]
+	if lay == 'neg':
+		basearr = a[::-1].copy()
+		return basearr[::-1], [basearr]
+	if lay == 'ro':
+		a.setflags(write=False)
+		return a, [a]
+	if lay == 'unaligned':
+		raw = bytearray(1 + a.nbytes)
+		raw[1:] = a.tobytes()
+		return np.frombuffer(raw, dtype=dt, offset=1), [raw]
+	if lay == 'col':
+		basearr = np.full((len(a), 3), junk, dtype=dt)
+		basearr[:, 1] = a
+		return basearr[:, 1], [basearr]
+	if lay == 'bcast' and len(vals) and all(v == vals[0] for v in vals):
+		basearr = np.array(vals[0], dtype=dt)
+		return np.broadcast_to(basearr, (len(vals),)), [basearr]
+	return a, [a]
+
+
+def _npint(x, ty):
+	"""Python int / None -> index scalar of the named kind"""
+	import enum
+	import numpy as np
+	if x is None or ty in (None, 'py'):
+		return x
+	if ty == 'bool':
+		return bool(x)
+	if ty == 'intenum':
+		return enum.IntEnum('E', {'X': x}).X
+	return getattr(np, ty)(x)
+
+
+def _xindex(idx):
+	"""extended index description -> (python index object, objects to snapshot, strict)
+	strict=False: the input is a sequence/scalar that a plain list or NumPy would read as integers but that the
+	property does not name (bool scalars, IntEnum, range, bytearray, array.array, memoryview, tuple masks, lists
+	mixing bool and int); for those the implementation may either select what a list would or refuse with an
+	index/type error -- it must never select anything else."""
+	import array
+	import numpy as np
+	t = idx['t']
+	if t == 'int':
+		ty = idx.get('as', 'py')
+		return _npint(idx['v'], ty), [], ty not in ('bool', 'intenum')
+	if t == 'slice':
+		tys = idx.get('np') or [None, None, None]
+		py = slice(_npint(idx['a'], tys[0]), _npint(idx['b'], tys[1]), _npint(idx['s'], tys[2]))
+		return py, [], 'bool' not in tys
+	if t == 'ints':
+		c, v = idx['c'], list(idx['v'])
+		if c == 'nd':
+			py, extras = _nd(v, idx['dt'], idx.get('lay', 'contig'))
+			return py, extras, True
+		if c in ('list-np', 'tuple-np'):
+			tys = idx['tys']
+			py = [_npint(x, tys[i % len(tys)]) for i, x in enumerate(v)]
+			# NumPy promotes a list mixing 64-bit unsigned and signed scalars to float64 (and refuses it as an index
+			# itself): such a list is judged leniently
+			used = {np.dtype(getattr(np, ty)) for ty in tys[:len(v)]}
+			mixed = any(d.kind == 'u' and d.itemsize == 8 for d in used) and any(d.kind == 'i' for d in used)
+			return (py if c == 'list-np' else tuple(py)), [], not mixed
+		if c == 'mixbool':
+			return [bool(x) if i in idx['bp'] else x for i, x in enumerate(v)], [], False
+		if c == 'range':
+			return range(*idx['r']), [], False
+		if c == 'array.array':
+			return array.array(idx.get('tc', 'q'), v), [], False
+		if c == 'bytearray':
+			return bytearray(v), [], False
+		if c == 'memoryview':
+			basearr = np.array(v, dtype=idx.get('dt', 'int64'))
+			return memoryview(basearr), [basearr], False
+	if t == 'mask':
+		c, m = idx['c'], [bool(b) for b in idx['v']]
+		if c == 'nd':
+			py, extras = _nd(m, 'bool', idx.get('lay', 'contig'))
+			return py, extras, True
+		if c == 'list-np':
+			return [np.bool_(b) for b in m], [], True
+		if c == 'tuple':
+			return tuple(m), [], False
+	raise ValueError(idx)
+
+
+def _xsnap(py, extras):
+	import array
+	import numpy as np
+	out = []
+	for x in list(extras) + [py]:
+		if isinstance(x, np.ndarray):
+			out.append((str(x.dtype), x.shape, x.tobytes()))
+		elif isinstance(x, (bytearray, memoryview, array.array)):
+			out.append(bytes(x))
+		elif isinstance(x, (list, tuple, range)):
+			out.append(repr(x))
+	return out
+
+
+def _xoracle(l, idx):
+	"""what a plain list does with the integers / mask the index stands for"""
+	t = idx['t']
+	try:
+		if t == 'int':
+			return ['sig', l[idx['v']]]
+		if t == 'slice':
+			return ['coll', l[slice(idx['a'], idx['b'], idx['s'])]]
+		if t == 'ints':
+			return ['coll', [l[i] for i in idx['v']]]
+		if t == 'mask':
+			if len(idx['v']) != len(l):
+				return ['err', 'IndexError']
+			return ['coll', [x for x, b in zip(l, idx['v']) if b]]
+	except IndexError:
+		return ['err', 'IndexError']
+	except ValueError:
+		return ['err', 'ValueError']
+	raise ValueError(idx)
+
+
+def _errclass(e):
+	return 'Index/TypeError' if e in ('IndexError', 'TypeError') else e
+
+
+def _xjudge(obs, want, strict):
+	if want[0] == 'err':
+		return obs[0] == 'err' and _errclass(obs[1]) == _errclass(want[1])
+	return obs == want or (not strict and obs[0] == 'err' and obs[1] in ('IndexError', 'TypeError'))
+
+
+def _dtc(x):
+	import numpy as np
+	x = np.dtype(x)
+	return (x.kind, x.itemsize)
+
+
+def _xmeta(r, obs, B):
+	"""sub-collections keep type, k-mer parameters and integer type (also of every item) -> None or complaint"""
+	import numpy as np
+	from gambit.sigs.base import SignatureArray, SignatureList
+	dt = B['dt']
+	same = (lambda x: np.dtype(x) == dt) if dt.isnative else (lambda x: _dtc(x) == _dtc(dt))
+	if obs[0] == 'sig':
+		return None if same(r.dtype) else f'signature dtype {r.dtype}, collection dtype {dt}'
+	if obs[0] != 'coll':
+		return None
+	wt = SignatureList if B['base'] == 'list' else SignatureArray
+	if type(r) is not wt and not B.get('ann'):
+		# (what the AnnotatedSignatures wrapper returns is not named by the property: any collection type is accepted)
+		return f'sub-collection is a {type(r).__name__}, expected {wt.__name__}'
+	if r.kmerspec != B['ks'] or (r.kmerspec is None) != (B['ks'] is None):
+		return f'sub-collection has k-mer parameters {r.kmerspec}, parent {B["ks"]}'
+	if not same(r.dtype):
+		return f'sub-collection has dtype {r.dtype}, parent {dt}'
+	if len(r) != len(obs[1]):
+		return f'len(sub-collection) = {len(r)} but it iterates over {len(obs[1])} signatures'
+	for s in r:
+		if not same(s.dtype):
+			return f'a signature of the sub-collection has dtype {s.dtype}, parent {dt}'
+	return None
+
+
+def _content(coll):
+	return [[int(x) for x in s] for s in coll]
+
+
+def k_xindex(ctx, cases):
+	for c in cases:
+		B = _xbuild(c['coll'])
+		coll = B['obj']
+		l = [list(s) for s in c['coll']['sigs']]
+		n = len(l)
+		idx = c['idx']
+		py, extras, strict = _xindex(idx)
+		before = _xsnap(py, extras)
+		desc = f"{c['coll']['how']} collection ({c['coll'].get('dt', 'uint16')}, k-mer parameters #{c['coll'].get('k', 0)}) of {n} " \
+		       f"signatures indexed with {py!r}"
+		obs, r = _obs_impl(coll, py)
+		obs2, _ = _obs_impl(coll, py)
+		after = _xsnap(py, extras)
+		want = _xoracle(l, idx)
+		plain = idx['t'] == 'int' and idx.get('as', 'py') == 'py' and 0 <= idx['v'] < n
+		ctx.case(c if n <= 8 else dict(coll=dict(c['coll'], sigs=n), idx=idx), nontrivial=(n >= 2 and not plain))
+		if not _xjudge(obs, want, strict):
+			ctx.violation('xindex', c, f'{desc}: got {_short(obs)}, a plain list gives {_short(want)}'
+			              + ('' if strict else ' (or an index/type error would be acceptable for this kind of index object)'),
+			              impl=obs, spec=want)
+			continue
+		if obs2 != obs:
+			ctx.violation('xindex', c, f'{desc}: the same index object gives {_short(obs)} the first and {_short(obs2)} the second time',
+			              impl=[obs, obs2], spec=want)
+			continue
+		if before != after:
+			ctx.violation('xindex', c, f'{desc}: the caller\'s index object (or the buffer it views) was modified',
+			              impl=str(after)[:300], spec=str(before)[:300])
+			continue
+		bad = _xmeta(r, obs, B)
+		if bad:
+			ctx.violation('xindex', c, f'{desc}: {bad}', impl=bad)
+			continue
+		try:
+			now = _content(coll)
+			ok = now == l and len(coll) == n
+		except Exception as e:
+			now, ok = 'exception ' + type(e).__name__, False
+		if not ok:
+			ctx.violation('xindex', c, f'{desc}: afterwards the collection itself reads {_short(now)}, before {_short(l)}',
+			              impl=now, spec=l)
+
+
+def _mut_op(op):
+	"""session mutation ['set', i, sig, 'int64'] -> (_apply op for the SignatureList with a NumPy scalar index,
+	_apply op for the plain list)"""
+	if op[0] in ('set', 'ins') and len(op) == 4:
+		return [op[0], _npint(op[1], op[3]), op[2]], op[:3]
+	if op[0] in ('del', 'pop') and len(op) == 3:
+		return [op[0], _npint(op[1], op[2])], op[:2]
+	return op, op
+
+
+def k_session(ctx, cases):
+	import numpy as np
+	for c in cases:
+		B = _xbuild(c['coll'])
+		sigs = [list(s) for s in c['coll']['sigs']]
+		idxs = c['idxs']
+		built = [_xindex(d) for d in idxs]
+		snaps = [_xsnap(b[0], b[1]) for b in built]
+		objs = [B['obj']]
+		ors = [[list(s) for s in sigs]]
+		arr = lambda s: np.array(s, dtype=B['dt'])
+		what = None
+		muts = nested = 0
+
+		def verify(upto_step):
+			for j, (o, w) in enumerate(zip(objs, ors)):
+				if j == 0 and c['coll']['how'].endswith('hdf5') and upto_step is not None:
+					continue   # the file-backed root is re-read at the end only
+				try:
+					now = _content(o)
+					okk = now == w and len(o) == len(w)
+				except Exception as e:
+					now, okk = 'exception ' + type(e).__name__, False
+				if not okk:
+					return (f'object #{j} ({"the collection" if j == 0 else "a sub-collection taken earlier"}) reads {_short(now)}, '
+					        f'a plain list / independent copy holds {_short(w)}', now, w)
+			return None
+
+		for si, st in enumerate(c['steps']):
+			where = f'step {si} {st}'
+			if st[0] == 'get':
+				t, j = st[1], st[2]
+				py, _, strict = built[j]
+				obs, r = _obs_impl(objs[t], py)
+				want = _xoracle(ors[t], idxs[j])
+				if not _xjudge(obs, want, strict):
+					what = (f'{where}: object #{t} indexed with {py!r} gives {_short(obs)}, a plain list {_short(want)}', obs, want)
+					break
+				if want[0] == 'coll' and obs[0] != 'coll':
+					what = 'skip'   # lenient refusal of an exotic index: nothing to continue with
+					break
+				bad = _xmeta(r, obs, B)
+				if bad:
+					what = (f'{where}: object #{t} indexed with {py!r}: {bad}', bad, None)
+					break
+				if obs[0] == 'coll':
+					objs.append(r)
+					ors.append([list(s) for s in want[1]])
+					nested += t > 0
+			elif st[0] == 'mut':
+				t = st[1]
+				oi_op, oo_op = _mut_op(st[2])
+				oi = _apply(objs[t], oi_op, arr)
+				oo = _apply(ors[t], oo_op, lambda s: list(s))
+				muts += 1
+				if oi != oo:
+					what = (f'{where}: outcome {oi}, plain list {oo}', oi, oo)
+					break
+			elif st[0] == 'eq':
+				a, b = st[1], st[2]
+				want = ors[a] == ors[b]
+				try:
+					got = [bool(objs[a] == objs[b]), bool(objs[b] == objs[a]), not bool(objs[a] != objs[b])]
+				except Exception as e:
+					got = ['exception ' + type(e).__name__]
+				if got != [want] * 3:
+					what = (f'{where}: objects #{a} and #{b} hold {"equal" if want else "different"} signatures (same k-mer parameters) '
+					        f'but ==, reversed ==, not != give {got}', got, want)
+					break
+			elif st[0] == 'iter':
+				t = st[1]
+				o, w = objs[t], ors[t]
+				try:
+					got = [len(o), _content(iter(o)), _content(reversed(o)), [[int(x) for x in o[i]] for i in range(len(w))]]
+				except Exception as e:
+					got = ['exception ' + type(e).__name__]
+				exp = [len(w), w, w[::-1], w]
+				if got != exp:
+					what = (f'{where}: len / iter / reversed / item-by-item of object #{t} give {_short(got)}, a plain list {_short(exp)}',
+					        got, exp)
+					break
+			bad = verify(si)
+			if bad:
+				what = (f'after {where}: {bad[0]}', bad[1], bad[2])
+				break
+		if what is None:
+			bad = verify(None)
+			if bad:
+				what = (f'after the whole session: {bad[0]}', bad[1], bad[2])
+		if what is None:
+			for j, b in enumerate(built):
+				if _xsnap(b[0], b[1]) != snaps[j]:
+					what = (f'index object #{j} {b[0]!r} (used {sum(1 for s in c["steps"] if s[0] == "get" and s[2] == j)} times) was modified',
+					        None, None)
+					break
+		if what is None:
+			for j, o in enumerate(objs):
+				if (o.kmerspec != B['ks']) or _dtc(o.dtype) != _dtc(B['dt']):
+					what = (f'object #{j} ends with k-mer parameters {o.kmerspec} / dtype {o.dtype}, the collection had {B["ks"]} / {B["dt"]}',
+					        None, None)
+					break
+		ctx.case(c, nontrivial=len(c['steps']) >= 3 and (muts > 0 or nested > 0))
+		if what is not None and what != 'skip':
+			ctx.violation('session', c, f'{c["coll"]["how"]} collection of {len(sigs)} signatures, ' + what[0], impl=what[1], spec=what[2])
+
+
+def k_eqx(ctx, cases):
+	import numpy as np
+	from gambit.sigs.base import sigarray_eq
+	import gambit.sigs
+	for c in cases:
+		a, b = c['a'], c['b']
+		x = _xbuild(a)['obj']
+		y = x if c.get('alias') else _xbuild(b)['obj']
+		same_sigs = [list(s) for s in a['sigs']] == [list(s) for s in b['sigs']]
+		want = _kid(a.get('k', 0)) == _kid(b.get('k', 0)) and same_sigs
+		ctx.case(c if len(a['sigs']) <= 8 else dict(a=dict(a, sigs=len(a['sigs'])), b=dict(b, sigs=len(b['sigs'])), d=c.get('d')),
+		         nontrivial=len(a['sigs']) == len(b['sigs']) and len(a['sigs']) >= 1)
+		try:
+			got = [bool(x == y), bool(y == x), not bool(x != y), not bool(y != x)]
+		except Exception as e:
+			got = ['exception ' + type(e).__name__]
+		if got != [want] * 4:
+			ctx.violation('eqx', c, f'{a["how"]} ({a.get("dt")}, parameters #{a.get("k", 0)}) == {b["how"]} ({b.get("dt")}, parameters '
+			              f'#{b.get("k", 0)}){" (the same object)" if c.get("alias") else ""}: ==, reversed ==, not !=, reversed not != give '
+			              f'{got}; parameters and all signatures equal: {want} [{c.get("d")}]', impl=got, spec=want)
+			continue
+		# the content comparison on its own (re-exported as gambit.sigs.sigarray_eq; also on plain sequences)
+		try:
+			px, py_ = [np.array(s, dtype=a.get('dt', 'uint16')) for s in a['sigs']], tuple(np.array(s, dtype=b.get('dt', 'uint16')) for s in b['sigs'])
+			got = [bool(sigarray_eq(x, y)), bool(gambit.sigs.sigarray_eq(y, x)), bool(sigarray_eq(px, y)), bool(sigarray_eq(x, py_)),
+			       bool(sigarray_eq(px, py_))]
+		except Exception as e:
+			got = ['exception ' + type(e).__name__]
+		if got != [same_sigs] * 5:
+			ctx.violation('eqx', c, f'sigarray_eq on {a["how"]} / {b["how"]} (collections, plain list vs collection, collection vs tuple, '
+			              f'plain vs plain) gives {got}; all signatures equal: {same_sigs} [{c.get("d")}]', impl=got, spec=same_sigs)
+
+
+KINDS = {'getitem': k_getitem, 'mutate': k_mutate, 'eq': k_eq, 'xindex': k_xindex, 'session': k_session, 'eqx': k_eqx}
 BACKINGS = ['array', 'list', 'hdf5', 'view']
+
+
+def _xsigs(rng, n, dt, long_p=0.0):
+	"""n signatures whose values use the whole range of dt (boundaries 2^8, 2^16, 2^32, 2^53, 2^63, 2^64 - 1), a few
+	of them long"""
+	top = XDT_MAX[dt]
+	edges = [v for v in (0, 1, 255, 256, 65535, 65536, 2 ** 31 - 1, 2 ** 31, 2 ** 32 - 1, 2 ** 32, 2 ** 53, 2 ** 53 + 1,
+	                     2 ** 63 - 1, 2 ** 63, 2 ** 64 - 2, 2 ** 64 - 1) if v <= top]
+	out = []
+	for _ in range(n):
+		ln = rng.choice([17, 130, 300]) if rng.random() < long_p else rng.choice([0, 0, 1, 1, 2, 3, 4])
+		ln = min(ln, top + 1)
+		s = set()
+		while len(s) < ln:
+			s.add(rng.choice(edges) if rng.random() < 0.4 else rng.randint(0, top))
+		out.append(sorted(s))
+	return out
+
+
+def _xcoll(rng, n=None, hows=None, allow_none=True, long_p=0.03):
+	"""random collection description of the audit streams"""
+	how = rng.choice(hows or (ARRAY_HOWS + LIST_HOWS + ['hdf5'] * 6))
+	if rng.random() < 0.12 and not how.startswith('ann:'):
+		how = 'ann:' + how
+	dt = rng.choice(['uint8', 'uint16', 'uint16', 'uint32', 'uint32', 'uint64', 'uint64', 'uint64', 'int16', 'int32', 'int64',
+	                 '>u2', '>u4', '>u8'])
+	k = rng.choice([0, 1, 2, 3, 4] + ([None] if allow_none and not how.endswith('hdf5') else []))
+	if n is None:
+		n = rng.choice([0, 1, 2, 3, 4, 5, 6, 9, 14])
+	d = dict(how=how, k=k, dt=dt, sigs=_xsigs(rng, n, dt, long_p))
+	o = {}
+	if how.endswith('from-arrays'):
+		o['bdt'] = rng.choice(['intp', 'int32', 'uint32', 'int64', 'uint64'])
+	if how.endswith('hdf5'):
+		o = dict(src=rng.choice(['array', 'list']), ids=rng.choice([None, None, 'str', 'int', 'strB']), meta=rng.randrange(2),
+		         comp=rng.choice([None, None, 'gzip', 'lzf']), group=rng.random() < 0.2,
+		         open=rng.choice(['default', 'default', 'mode-r', 'core', 'fn']))
+	if how.startswith('ann:'):
+		o['aids'] = rng.choice([None, 'a', 'b'])
+	if o:
+		d['opts'] = o
+	return d
+
+
+def _fit(v, dt):
+	lo, hi = _idx_range(dt)
+	return all(lo <= x <= hi for x in v)
+
+
+def _xidx(rng, n):
+	"""random index description using the containers / scalar kinds / layouts the modelled streams do not produce"""
+	r = rng.random()
+	pos = lambda: rng.choice([rng.randint(-n - 2, n + 1), 0, -1, n - 1, -n, n, -n - 1]) if rng.random() < 0.25 else \
+		(rng.randint(-n, n - 1) if n else 0)
+	if r < 0.12:
+		v = pos()
+		ty = rng.choice(NP_SCALARS + ['bool', 'intenum', 'intenum'])
+		if ty == 'bool':
+			v = rng.randrange(2)
+		elif ty != 'intenum' and not _fit([v], ty):
+			ty = 'int64'
+		return dict(t='int', v=v, **{'as': ty})
+	if r < 0.3:
+		f = lambda: rng.choice([None, rng.randint(-n - 2, n + 2)])
+		a, b, s = f(), f(), rng.choice([None, 1, -1, 2, -2, 3, -3, 0, rng.randint(-n - 2, n + 2)])
+		tys = []
+		for x in (a, b, s):
+			ty = rng.choice(NP_SCALARS + ['py'])
+			if x is not None and ty != 'py' and not _fit([x], ty):
+				ty = 'int64'
+			if x in (0, 1) and rng.random() < 0.1:
+				ty = 'bool'
+			tys.append(None if x is None else ty)
+		return dict(t='slice', a=a, b=b, s=s, np=tys)
+	if r < 0.8:
+		ln = rng.choice([0, 1, 1, 2, 3, 4, 6, 9])
+		v = [pos() for _ in range(ln)] if (n or rng.random() < 0.3) else []
+		if rng.random() < 0.2 and v:
+			v = [v[0]] * len(v)   # repeated index (also what a broadcast array holds)
+		c = rng.choice(['nd'] * 6 + ['list-np', 'list-np', 'tuple-np', 'mixbool', 'range', 'array.array', 'bytearray', 'memoryview'])
+		if c == 'nd':
+			dt = rng.choice(IDX_DTS)
+			if not _fit(v, dt):
+				dt = rng.choice(['int64', '>i8', 'intp']) if _fit(v, 'int64') else 'int64'
+			lay = rng.choice(IDX_LAYOUTS)
+			if lay == 'bcast' and v:
+				v = [v[0]] * len(v)
+			return dict(t='ints', c='nd', v=v, dt=dt, lay=lay)
+		if c in ('list-np', 'tuple-np'):
+			if not v:
+				v = [pos()]
+			tys = [rng.choice(NP_SCALARS) for _ in range(rng.randint(1, 3))]
+			tys = [ty if all(_fit([x], ty) for x in v) else 'int64' for ty in tys]
+			return dict(t='ints', c=c, v=v, tys=tys)
+		if c == 'mixbool':
+			v = [pos() for _ in range(max(2, ln))]
+			p = rng.randrange(len(v))
+			v[p] = rng.randrange(2)
+			q = (p + 1) % len(v)
+			if v[q] in (0, 1):
+				v[q] = -1   # keep one element that is a real int, so that the list is not a mask
+			return dict(t='ints', c=c, v=v, bp=[p])
+		if c == 'range':
+			a, b, s = rng.randint(-n - 1, n + 1), rng.randint(-n - 1, n + 1), rng.choice([1, 1, -1, 2, -2, 3])
+			return dict(t='ints', c=c, r=[a, b, s], v=list(range(a, b, s)))
+		if c == 'array.array':
+			tc = rng.choice('bhilqBHILQ')
+			if tc.isupper():
+				v = [abs(x) for x in v]
+			return dict(t='ints', c=c, v=v, tc=tc)
+		if c == 'bytearray':
+			return dict(t='ints', c=c, v=[abs(x) for x in v])
+		dt = rng.choice(['int64', 'int32', 'uint8', 'int16'])
+		if dt == 'uint8':
+			v = [abs(x) for x in v]
+		return dict(t='ints', c=c, v=v, dt=dt)
+	ln = n if rng.random() < 0.85 else max(0, n + rng.choice([-1, 1, 2]))
+	c = rng.choice(['nd', 'nd', 'nd', 'list-np', 'tuple'])
+	if ln == 0:
+		c = 'nd'
+	m = [rng.randint(0, 1) for _ in range(ln)]
+	if rng.random() < 0.15:
+		m = [rng.randrange(2)] * ln
+	return dict(t='mask', c=c, v=m, lay=rng.choice([x for x in IDX_LAYOUTS if x != 'unaligned']))
+
+
+def _xsession(rng):
+	"""one random session: a collection, a pool of index objects (reused by reference), steps that index the
+	collection or sub-collections taken earlier, mutate list-backed ones, compare and iterate"""
+	listy = rng.random() < 0.5
+	coll = _xcoll(rng, n=rng.choice([1, 2, 3, 4, 5, 7]), hows=(LIST_HOWS if listy else ARRAY_HOWS + ['hdf5'] * 4), long_p=0.0)
+	if listy and coll['how'].startswith('ann:'):
+		coll['how'] = coll['how'][4:]   # the wrapper has no mutators
+		coll.get('opts', {}).pop('aids', None)
+	idxs, steps = [], []
+	ors = [[list(s) for s in coll['sigs']]]
+	top = XDT_MAX[coll['dt']]
+	for _ in range(rng.randint(2, 14)):
+		t = rng.choice([0, 0, len(ors) - 1, rng.randrange(len(ors))])
+		n = len(ors[t])
+		r = rng.random()
+		if r < (0.45 if listy else 0.7):
+			if idxs and rng.random() < 0.35:
+				j = rng.randrange(len(idxs))
+			else:
+				d = _xidx(rng, n)
+				if rng.random() < 0.3:
+					d = rng.choice([dict(t='slice', a=None, b=None, s=None, np=[None] * 3), dict(t='slice', a=0, b=n, s=1, np=['py'] * 3),
+					                dict(t='ints', c='nd', v=list(range(n)), dt='intp', lay='contig'),
+					                dict(t='mask', c='nd', v=[1] * n, lay='contig'), dict(t='slice', a=rng.randint(0, n), b=None, s=None, np=['py', None, None])])
+				idxs.append(d)
+				j = len(idxs) - 1
+			w = _xoracle(ors[t], idxs[j])
+			steps.append(['get', t, j])
+			if w[0] == 'coll':
+				if len(ors) >= 8:
+					steps.pop()
+					continue
+				ors.append(list(w[1]))
+		elif r < 0.8 and listy:
+			i = rng.choice([rng.randint(-n - 1, n), 0, -1, n])
+			sig = sorted(rng.sample(range(min(top, 60000)), rng.randint(0, 3)))
+			ty = rng.choice([None, None] + NP_SCALARS)
+			if ty and not _fit([i], ty):
+				ty = 'int64'
+			kind = rng.choice(['set', 'del', 'ins', 'pop', 'app', 'ext', 'rev', 'setslice', 'delslice', 'iadd'])
+			if kind in ('set', 'ins'):
+				op = [kind, i, sig] + ([ty] if ty else [])
+			elif kind in ('del', 'pop'):
+				op = [kind, i] + ([ty] if ty else [])
+			elif kind == 'app':
+				op = ['app', sig]
+			elif kind in ('ext', 'iadd'):
+				op = [kind, [sig, []]]
+			elif kind == 'rev':
+				op = ['rev']
+			elif kind == 'delslice':
+				op = ['delslice', rng.choice([None, rng.randint(-n, n)]), rng.choice([None, rng.randint(-n, n)]), rng.choice([None, 1, 2, -1])]
+			else:
+				op = ['setslice', rng.choice([None, rng.randint(-n, n)]), rng.choice([None, rng.randint(-n, n)]), None, [sig] * rng.randint(0, 2)]
+			_apply(ors[t], _mut_op(op)[1], lambda s: list(s))
+			steps.append(['mut', t, op])
+		elif r < 0.9:
+			steps.append(['eq', t, rng.randrange(len(ors))])
+		else:
+			steps.append(['iter', t])
+	return dict(coll=coll, idxs=idxs, steps=steps)
+
+
+def _xeq_pair(rng):
+	"""two collection descriptions for the extended equality stream + a word saying how b was derived from a"""
+	a = _xcoll(rng, n=rng.choice([0, 1, 2, 3, 5, 8] + [300] * (rng.random() < 0.04)), long_p=0.05)
+	b = _xcoll(rng, n=0, long_p=0.0)
+	n = len(a['sigs'])
+	bmax = XDT_MAX[b['dt']]
+	if any(x > bmax for s in a['sigs'] for x in s):
+		b['dt'] = {'u': 'uint64', 'i': 'int64', '>': '>u8'}[b['dt'][0]]
+		if any(x > XDT_MAX[b['dt']] for s in a['sigs'] for x in s):
+			b['dt'] = rng.choice(['uint64', '>u8'])
+	bmax = XDT_MAX[b['dt']]
+	other = [list(s) for s in a['sigs']]
+	b['k'] = a['k']
+	if b['k'] is None and b['how'].endswith('hdf5'):
+		a['k'] = b['k'] = 0
+	r = rng.random()
+	nonempty = [j for j in range(n) if other[j]]
+	d = 'same content'
+	if r < 0.25:
+		pass
+	elif r < 0.45 and nonempty:
+		# the smallest possible change of one value, preferring the places where a narrowing / float comparison is blind
+		j = rng.choice(nonempty)
+		p = rng.randrange(len(other[j]))
+		x = other[j][p]
+		cands = [y for y in (x + 1, x - 1, x ^ (1 << 16), x ^ (1 << 32), x ^ (1 << 63), x ^ 1) if 0 <= y <= bmax and y != x]
+		big = [y for y in cands if max(x, y) > 2 ** 53]
+		other[j][p] = rng.choice(big if big and rng.random() < 0.7 else cands)
+		d = f'signature {j} position {p}: {x} -> {other[j][p]}'
+	elif r < 0.55 and n:
+		j = rng.randrange(n)
+		if other[j] and rng.random() < 0.5:
+			other[j] = other[j][:-1]
+		else:
+			other[j] = other[j] + [bmax]
+		d = f'signature {j} one element shorter / longer'
+	elif r < 0.65:
+		if n and rng.random() < 0.5:
+			other = other[:-1]
+		else:
+			other = other + [rng.choice([[], other[-1] if n else [3]])]
+		d = 'one signature fewer / more'
+	elif r < 0.72 and n >= 2:
+		i, j = rng.sample(range(n), 2)
+		other[i], other[j] = other[j], other[i]
+		d = f'signatures {i} and {j} swapped'
+	elif r < 0.9:
+		ks = [0, 1, 2, 3, 4] + ([None] if not (a['how'].endswith('hdf5') or b['how'].endswith('hdf5')) else [])
+		a['k'], b['k'] = rng.choice([(0, 4), (4, 0)] + [tuple(rng.sample(ks, 2))] * 3)
+		d = f'k-mer parameters #{a["k"]} vs #{b["k"]}'
+	else:
+		d = 'same content (b: other construction)'
+	b['sigs'] = other
+	alias = r >= 0.97
+	if alias:
+		b = a
+		d = 'the same object'
+	return dict(a=a, b=b, d=d, **({'alias': True} if alias else {}))
 
 
 def _rsig(rng, maxlen=4, top=4096):
@@ -663,3 +1491,39 @@ def generate(ctx):
 		ctx.count('stream:eq')
 		yield 'eq', dict(a=dict(kind=rng.choice(BACKINGS), k=k, bits=bits, sigs=sigs),
 		                 b=dict(kind=rng.choice(BACKINGS), k=k2, bits=bits2, sigs=other))
+
+	# ---- coverage-audit streams (see the table in the module docstring) ---------------------------------------
+	def count_coll(d):
+		how = d['how']
+		if how.startswith('ann:'):
+			ctx.count('stream:xcoll-annotated-wrapper')
+			how = how[4:]
+		ctx.count('stream:xcoll-hdf5-variants' if how == 'hdf5' else ('stream:xcoll-list-constructions' if how.startswith('list')
+		          else 'stream:xcoll-array-constructions'))
+		if d['dt'][0] in 'i>':
+			ctx.count('stream:xcoll-signed-or-big-endian-dtype')
+		if d.get('k') is None:
+			ctx.count('stream:xcoll-no-kmerspec')
+		if any(x > 2 ** 32 for sg in d['sigs'] for x in sg):
+			ctx.count('stream:xcoll-values-above-2^32')
+
+	pool = [_xcoll(rng, hows=[how]) for how in ARRAY_HOWS + LIST_HOWS + ['hdf5'] * 8 + ['ann:list', 'ann:array', 'ann:hdf5']]
+	pool += [_xcoll(rng) for _ in range(ctx.pick(110, 500))]
+	for _ in range(ctx.pick(6000, 50000)):
+		coll = rng.choice(pool)
+		idx = _xidx(rng, len(coll['sigs']))
+		count_coll(coll)
+		ctx.count({'int': 'stream:xindex-scalar-kinds', 'slice': 'stream:xindex-numpy-slice-fields',
+		           'mask': 'stream:xindex-mask-containers-layouts'}.get(idx['t']) or
+		          ('stream:xindex-array-layouts-byteorders' if idx['c'] == 'nd' else 'stream:xindex-int-containers'))
+		yield 'xindex', dict(coll=coll, idx=idx)
+	for _ in range(ctx.pick(1500, 12000)):
+		c = _xsession(rng)
+		count_coll(c['coll'])
+		ctx.count('stream:session-list-backed' if c['coll']['how'].split(':')[-1].startswith('list') else 'stream:session-array-file-backed')
+		yield 'session', c
+	for _ in range(ctx.pick(1500, 12000)):
+		c = _xeq_pair(rng)
+		count_coll(c['a'])
+		ctx.count('stream:eqx')
+		yield 'eqx', c
